@@ -29,7 +29,9 @@ pub struct Case {
     pub seed: u64,
     /// how item ids are renumbered: 0 = injectively into random 31-bit numbers, 1 = a random
     /// permutation of 0..n in every crate (so ids of different crates collide all the time),
-    /// 2 = order reversed (max + min - id), 3 = shifted by a constant
+    /// 2 = order reversed (max + min - id), 3 = shifted by a constant, 4 = as shipped except for
+    /// 2-12 targeted swaps per crate that give an item the number which an item of the same kind
+    /// (half of the time also of the same name) carries in ANOTHER crate of the same run
     #[serde(default)]
     pub numbering: u8,
 }
@@ -81,6 +83,84 @@ fn all_ids(c: &Crate) -> anyhow::Result<HashSet<u32>> {
     }
 }
 
+/// the kinds of item the registry builder follows edges between
+fn kind_of(inner: &ItemEnum) -> Option<u8> {
+    Some(match inner {
+        ItemEnum::Struct(_) => 0,
+        ItemEnum::Enum(_) => 1,
+        ItemEnum::Impl(_) => 2,
+        ItemEnum::AssocType { .. } => 3,
+        ItemEnum::StructField(_) => 4,
+        ItemEnum::Variant(_) => 5,
+        ItemEnum::Trait(_) => 6,
+        ItemEnum::TypeAlias(_) => 7,
+        _ => return None,
+    })
+}
+const KINDS: u8 = 8;
+const LIBRARIES: &[&str] = &["crux_core", "crux_http", "crux_kv", "crux_platform", "crux_time"];
+
+/// (kind, name, id) of the local items of a bundled description, as shipped
+fn catalogue(name: &str) -> std::sync::Arc<Vec<(u8, Option<String>, u32)>> {
+    static CAT: OnceLock<std::sync::Mutex<HashMap<String, std::sync::Arc<Vec<(u8, Option<String>, u32)>>>>> = OnceLock::new();
+    let cat = CAT.get_or_init(Default::default);
+    if let Some(c) = cat.lock().unwrap().get(name) {
+        return c.clone();
+    }
+    let mut v: Vec<(u8, Option<String>, u32)> = raw(name).map(|c| c.index.iter().filter(|(_, it)| it.crate_id == 0).filter_map(|(id, it)| kind_of(&it.inner).map(|k| (k, it.name.clone(), id.0))).collect()).unwrap_or_default();
+    v.sort();
+    let v = std::sync::Arc::new(v);
+    cat.lock().unwrap().insert(name.to_string(), v.clone());
+    v
+}
+
+/// numbering 4: the identity except for a few swaps that make an item of this crate carry the number an
+/// item of the same kind carries in another crate of the run (ids are per crate: a consistent renumbering)
+fn colliding_swaps(name: &str, example: &str, sorted: &[u32], rng: &mut Rng) -> HashMap<u32, u32> {
+    let mut map: HashMap<u32, u32> = sorted.iter().map(|i| (*i, *i)).collect();
+    let mine = catalogue(name);
+    let others: Vec<std::sync::Arc<Vec<(u8, Option<String>, u32)>>> = LIBRARIES.iter().copied().chain(std::iter::once(example)).filter(|o| *o != name).map(catalogue).collect();
+    let mut holder: HashMap<u32, u32> = sorted.iter().map(|i| (*i, *i)).collect(); // new number -> old id
+    for _ in 0..2 + rng.next() % 11 {
+        let kind = (rng.next() % KINDS as u64) as u8;
+        let same_name = rng.next() % 2 == 0;
+        let xs: Vec<&(u8, Option<String>, u32)> = mine.iter().filter(|x| x.0 == kind).collect();
+        let ys: Vec<&(u8, Option<String>, u32)> = others.iter().flat_map(|o| o.iter()).filter(|y| y.0 == kind).collect();
+        if xs.is_empty() || ys.is_empty() {
+            continue;
+        }
+        let (x, y) = if same_name {
+            let shared: Vec<&&(u8, Option<String>, u32)> = xs.iter().filter(|x| x.1.is_some() && ys.iter().any(|y| y.1 == x.1)).collect();
+            if shared.is_empty() {
+                continue;
+            }
+            let x: &(u8, Option<String>, u32) = shared[(rng.next() % shared.len() as u64) as usize];
+            let named: Vec<&&(u8, Option<String>, u32)> = ys.iter().filter(|y| y.1 == x.1).collect();
+            let y: &(u8, Option<String>, u32) = named[(rng.next() % named.len() as u64) as usize];
+            (x, y)
+        } else {
+            (xs[(rng.next() % xs.len() as u64) as usize], ys[(rng.next() % ys.len() as u64) as usize])
+        };
+        // x takes the number y has in its own crate; whoever holds that number here takes x's
+        let (x_now, target) = (map[&x.2], y.2);
+        if x_now == target {
+            continue;
+        }
+        match holder.get(&target).copied() {
+            Some(z) => {
+                map.insert(z, x_now);
+                holder.insert(x_now, z);
+            }
+            None => {
+                holder.remove(&x_now);
+            }
+        }
+        map.insert(x.2, target);
+        holder.insert(target, x.2);
+    }
+    map
+}
+
 fn transform(name: &str, case: &Case) -> anyhow::Result<(Crate, usize)> {
     let mut c = raw(name)?;
     let mut rng = Rng(case.seed ^ name_hash(name));
@@ -89,7 +169,8 @@ fn transform(name: &str, case: &Case) -> anyhow::Result<(Crate, usize)> {
         let mut sorted: Vec<u32> = all_ids(&c)?.into_iter().collect();
         sorted.sort_unstable();
         let mut map = HashMap::new();
-        match case.numbering % 4 {
+        match case.numbering % 5 {
+            4 => map = colliding_swaps(name, EXAMPLES[case.example], &sorted, &mut rng),
             0 => {
                 let mut used = HashSet::new();
                 for i in sorted {
@@ -315,7 +396,7 @@ fn agrees_with_traced(reg: &Value) -> Result<usize, String> {
 }
 
 pub fn strategy() -> BoxedStrategy<Case> {
-    (0..EXAMPLES.len(), prop::bool::weighted(0.85), any::<bool>(), any::<u64>(), prop_oneof![2 => Just(0u8), 4 => Just(1u8), 1 => Just(2u8), 1 => Just(3u8)])
+    (0..EXAMPLES.len(), prop::bool::weighted(0.85), any::<bool>(), any::<u64>(), prop_oneof![2 => Just(0u8), 3 => Just(1u8), 1 => Just(2u8), 1 => Just(3u8), 7 => Just(4u8)])
         .prop_map(|(example, renumber_items, renumber_crates, seed, numbering)| Case { example, renumber_items, renumber_crates, seed, numbering })
         .boxed()
 }
@@ -354,9 +435,9 @@ fn main() {
         }
         closed(&out.registry).map_err(|e| format!("[not-closed] {}: {e}", EXAMPLES[c.example]))?;
         let reordered = out.load_order != base.load_order;
-        let nt = reordered || out.moved >= 100;
+        let nt = reordered || out.moved >= 100 || (c.numbering % 5 == 4 && out.moved >= 4);
         orders.lock().unwrap()[c.example].insert(out.load_order.clone());
-        stats.case(c, nt, &[&format!("description:{}", EXAMPLES[c.example]), if reordered { "load-order:changed" } else { "load-order:same" }, if c.renumber_items { "items:renumbered" } else { "items:as-is" }, if c.renumber_crates { "crates:renumbered" } else { "crates:as-is" }, ["numbering:sparse-random", "numbering:dense-permutation(colliding-across-crates)", "numbering:reversed", "numbering:shifted"][(c.numbering % 4) as usize]]);
+        stats.case(c, nt, &[&format!("description:{}", EXAMPLES[c.example]), if reordered { "load-order:changed" } else { "load-order:same" }, if c.renumber_items { "items:renumbered" } else { "items:as-is" }, if c.renumber_crates { "crates:renumbered" } else { "crates:as-is" }, ["numbering:sparse-random", "numbering:dense-permutation(colliding-across-crates)", "numbering:reversed", "numbering:shifted", "numbering:targeted-same-kind-collisions-across-crates"][(c.numbering % 5) as usize]]);
         if nt && stats.wants_sample() {
             stats.sample(|| serde_json::json!({"case": c, "ids_moved": out.moved, "load_order": out.load_order}));
         }
@@ -401,7 +482,7 @@ fn main() {
                     std::process::exit(1);
                 }
             }
-            let outcome = vkit::run_prop(prop, vkit::workers_for(tier), tier.pick(12, 200), strategy, check);
+            let outcome = vkit::run_prop(prop, vkit::workers_for(tier), tier.pick(40, 400), strategy, check);
             stats.set_extra("distinct_load_orders_per_description", serde_json::json!(EXAMPLES.iter().zip(orders.lock().unwrap().iter()).map(|(e, o)| (e.to_string(), o.len())).collect::<BTreeMap<_, _>>()));
             let outcome = match outcome {
                 Outcome::Held if stats.distinct_nontrivial() < 2 => Outcome::Inconclusive("generator produced no non-trivial case".into()),
@@ -411,7 +492,7 @@ fn main() {
                 Report {
                     prop,
                     tier,
-                    rule: "the 7 bundled descriptions x transformations {consistent renumbering of every item id - injectively into random numbers, as a random permutation of 0..n per crate (ids of different crates then collide constantly), order-reversing, or shifted - (through a serde adapter that intercepts the newtype Id wherever it occurs, map keys included), renumbering of external crate ids, fresh hash order of all maps by re-deserialisation}, applied to the root crate and to every dependent crate the builder loads; non-trivial = the transformation changed the load order of dependent crates or moved >= 100 ids; distinct = distinct (description, transformation); clauses closed / variant order / traced schema are evaluated on each untransformed registry and carried to the transformed ones by the equality",
+                    rule: "the 7 bundled descriptions x transformations {consistent renumbering of every item id - injectively into random numbers, as a random permutation of 0..n per crate (ids of different crates then collide constantly), order-reversing, shifted, or as shipped but for 2-12 targeted swaps per crate that give an item the number an item of the same kind (struct, enum, impl, associated type, field, variant, trait, alias; half of the time also of the same name) carries in another crate of the run - (through a serde adapter that intercepts the newtype Id wherever it occurs, map keys included), renumbering of external crate ids, fresh hash order of all maps by re-deserialisation}, applied to the root crate and to every dependent crate the builder loads; non-trivial = the transformation changed the load order of dependent crates, moved >= 100 ids, or made >= 2 targeted swaps; distinct = distinct (description, transformation); clauses closed / variant order / traced schema are evaluated on each untransformed registry and carried to the transformed ones by the equality",
                     assumptions: vec![
                         "declaration order is read from the description's own variant list (rustdoc keeps source order); enums whose name is ambiguous across crates or that use serde rename are checked for contiguity only".into(),
                         "the traced schema is serde-reflection's registry of the shipped protocol types, compared as JSON with the CLI's containers of the same name".into(),
